@@ -30,3 +30,7 @@ pub assume_specification<T, E> [std::result::Result::<T, E>::unwrap_or] (r: std:
 // slice::to_vec: an element-wise clone; for element types whose clone is the value itself (String, integers) the views agree (ASSUMED)
 pub assume_specification<T: Clone> [<[T]>::to_vec] (s: &[T]) -> (r: Vec<T>)
     ensures r@ == s@;
+
+pub assume_specification<T, F: FnOnce() -> Option<T>> [Option::<T>::or_else] (o: Option<T>, f: F) -> (r: Option<T>)
+    requires o is None ==> f.requires(()),
+    ensures o is Some ==> r == o, o is None ==> f.ensures((), r);
